@@ -2274,7 +2274,7 @@ XPath::literal(
     const XToken* const     theLiteral = m_expression.getToken(m_expression.getOpCodeMapValue(opPos + 2));
     assert(theLiteral != 0);
 
-    theString = theLiteral->str();
+    theString.append(theLiteral->str());
 }
 
 
@@ -2385,7 +2385,7 @@ XPath::numberlit(
         m_expression.getToken(m_expression.getOpCodeMapValue(opPos + 3));
     assert(theLiteral != 0);
 
-    theString = theLiteral->str();
+    theString.append(theLiteral->str());
 }
 
 
